@@ -91,7 +91,7 @@ impl PartialEq<&str> for ID {
 impl ScalarType for ID {
     fn parse(value: Value) -> InputValueResult<Self> {
         match value {
-            Value::Number(n) if n.is_i64() => Ok(ID(n.to_string())),
+            Value::Number(n) if n.is_i64() || n.is_u64() => Ok(ID(n.to_string())),
             Value::String(s) => Ok(ID(s)),
             _ => Err(InputValueError::expected_type(value)),
         }
@@ -99,7 +99,7 @@ impl ScalarType for ID {
 
     fn is_valid(value: &Value) -> bool {
         match value {
-            Value::Number(n) if n.is_i64() => true,
+            Value::Number(n) if n.is_i64() || n.is_u64() => true,
             Value::String(_) => true,
             _ => false,
         }
